@@ -1,9 +1,27 @@
-(* C20 — lemmas. *)
+(* C20 — lemmas (holder side). *)
 From Coq Require Import List NArith ZArith Bool Lia.
 Import ListNotations.
 From VF Require Import C20.Model.
 
-(* ---------- iterator soundness: search only returns sets that satisfy the requirement ---------- *)
+Lemma memN_In : forall x l, memN x l = true <-> In x l.
+Proof.
+  intros x l. unfold memN. rewrite existsb_exists. split.
+  - intros [y [Hy He]]. apply N.eqb_eq in He. subst. exact Hy.
+  - intros H. exists x. split; [exact H | apply N.eqb_refl].
+Qed.
+
+Lemma ckey_eqb_eq : forall a b, ckey_eqb a b = true <-> a = b.
+Proof.
+  intros [x|x|d x] [y|y|e y]; simpl; split; intros H; try discriminate; try congruence.
+  - apply N.eqb_eq in H. congruence.
+  - inversion H. apply N.eqb_refl.
+  - apply Nat.eqb_eq in H. congruence.
+  - inversion H. apply Nat.eqb_refl.
+  - apply andb_true_iff in H as [H1 H2]. apply N.eqb_eq in H1. apply Nat.eqb_eq in H2. congruence.
+  - inversion H. rewrite N.eqb_refl, Nat.eqb_refl. reflexivity.
+Qed.
+
+(* ---------- iterator soundness ---------- *)
 Lemma search_sound : forall fuel r st descs st' cur,
   search fuel r st descs = Some (st', cur) -> cur <> [] -> satisfied r cur = true /\ cur = current st' descs.
 Proof.
@@ -13,4 +31,133 @@ Proof.
   - destruct (satisfied r (x :: xs)) eqn:Hs.
     + inversion H; subst. split; [exact Hs | symmetry; exact Hc].
     + eapply IH; eauto.
+Qed.
+
+Lemma current_from_sub : forall descs i st x, In x (current_from i st descs) -> In x descs.
+Proof.
+  induction descs as [|d t IH]; intros i st x H; simpl in *; [exact H|].
+  destruct (N.testbit st i); [destruct H as [H|H]; [left; exact H | right; eapply IH; eauto] | right; eapply IH; eauto].
+Qed.
+
+Lemma remove_pos_sub : forall descs i pos x, In x (remove_pos_from i pos descs) -> In x descs.
+Proof.
+  induction descs as [|d t IH]; intros i pos x H; simpl in *; [exact H|].
+  destruct (existsb (Nat.eqb i) pos); [right; eapply IH; eauto|].
+  destruct H as [H|H]; [left; exact H | right; eapply IH; eauto].
+Qed.
+
+
+Lemma next_sound : forall r it ex it' sol,
+  next r it ex = Some (it', sol) -> sol <> [] ->
+  satisfied r sol = true /\ (forall x, In x sol -> In x (it_descs it)).
+Proof.
+  intros r it ex it' sol H Hne. unfold next in H.
+  destruct (it_done it); [inversion H; subst; congruence|].
+  destruct (positions_from 0 ex (it_descs it)) as [|p ps] eqn:Hp.
+  - destruct (search (fuel_for (it_descs it)) r (N.succ (it_state it)) (it_descs it)) as [[st2 cur]|] eqn:Hs; [|discriminate].
+    inversion H; subst. destruct (search_sound _ _ _ _ _ _ Hs Hne) as [H1 H2]. split; [exact H1|].
+    intros x Hx. rewrite H2 in Hx. eapply current_from_sub; exact Hx.
+  - unfold exclude_step in H.
+    match type of H with context [search ?f r ?s ?d] => destruct (search f r s d) as [[st2 cur]|] eqn:Hs; [|discriminate] end.
+    inversion H; subst. destruct (search_sound _ _ _ _ _ _ Hs Hne) as [H1 H2]. split; [exact H1|].
+    intros x Hx. rewrite H2 in Hx. apply current_from_sub in Hx. eapply remove_pos_sub; exact Hx.
+Qed.
+
+(* ---------- the holder's selection ---------- *)
+Definition good (v : variant) (p : defn) (cs : list icred) (m : dmatch) : Prop :=
+  exists d, find_desc p (m_desc m) = Some d /\ d_id d = m_desc m /\ In d (p_descs p) /\
+            m_creds m = limit_disclosure v d (snd (match_descriptor p d cs)) /\ m_creds m <> [].
+
+Lemma find_desc_spec : forall p id d, find_desc p id = Some d -> d_id d = id /\ In d (p_descs p).
+Proof.
+  intros p id d H. unfold find_desc in H. apply find_some in H as [H1 H2]. apply N.eqb_eq in H2. auto.
+Qed.
+Lemma find_match_spec : forall ms id m, find_match ms id = Some m -> m_desc m = id /\ In m ms.
+Proof.
+  intros ms id m H. unfold find_match in H. apply find_some in H as [H1 H2]. apply N.eqb_eq in H2. auto.
+Qed.
+
+Definition found (ms : list dmatch) (id : N) : Prop := exists m, find_match ms id = Some m.
+
+Lemma found_cons : forall m ms id, found ms id -> found (m :: ms) id.
+Proof.
+  intros m ms id [x Hx]. unfold found, find_match in *. simpl.
+  destruct (N.eqb (m_desc m) id); eauto.
+Qed.
+
+Lemma eval_sol_inv : forall v p cs sol ev ms b ev' ms' ex',
+  eval_sol v p cs sol ev ms = (b, ev', ms', ex') ->
+  Forall (good v p cs) ms ->
+  Forall (good v p cs) ms' /\ (forall id, found ms id -> found ms' id) /\
+  (b = true -> forall id, In id sol -> found ms' id).
+Proof.
+  intros v p cs sol. induction sol as [|id rest IH]; intros ev ms b ev' ms' ex' H G; simpl in H.
+  - inversion H; subst. repeat split; auto. intros _ id [].
+  - destruct (memN id ev) eqn:Hev.
+    + destruct (find_match ms id) as [m|] eqn:Hf.
+      * destruct (IH _ _ _ _ _ _ H G) as [A [B C]]. repeat split; auto.
+        intros Hb x [Hx|Hx]; [subst; apply B; exists m; exact Hf | apply C; auto].
+      * inversion H; subst. repeat split; auto. discriminate.
+    + destruct (find_desc p id) as [d|] eqn:Hd.
+      * destruct (match_descriptor p d cs) as [code l] eqn:Hm.
+        destruct (limit_disclosure v d l) as [|w ws] eqn:Hl.
+        -- inversion H; subst. repeat split; auto. discriminate.
+        -- set (m := {| m_desc := id; m_fmt := code; m_creds := w :: ws |}) in *.
+           assert (Gm : good v p cs m).
+           { destruct (find_desc_spec _ _ _ Hd) as [E1 E2]. exists d. simpl. repeat split; auto.
+             - rewrite Hm. simpl. symmetry. exact Hl.
+             - discriminate. }
+           destruct (IH _ _ _ _ _ _ H (Forall_cons _ Gm G)) as [A [B C]]. repeat split; auto.
+           ++ intros x Hx. apply B. apply found_cons. exact Hx.
+           ++ intros Hb x [Hx|Hx]; [|apply C; auto]. subst x. apply B.
+              exists m. unfold find_match. simpl. rewrite N.eqb_refl. reflexivity.
+      * inversion H; subst. repeat split; auto. discriminate.
+Qed.
+
+Definition sel_of (ms : list dmatch) (sol : list N) : list dmatch :=
+  flat_map (fun id => match find_match ms id with Some m => [m] | None => [] end) sol.
+
+Lemma sel_of_ids : forall ms sol, (forall id, In id sol -> found ms id) -> map m_desc (sel_of ms sol) = sol.
+Proof.
+  intros ms sol. induction sol as [|id rest IH]; intros H; simpl; [reflexivity|].
+  destruct (H id (or_introl eq_refl)) as [m Hm]. rewrite Hm. simpl.
+  destruct (find_match_spec _ _ _ Hm) as [E _]. rewrite E. f_equal. apply IH. intros x Hx. apply H. right. exact Hx.
+Qed.
+
+Lemma sel_of_in : forall ms sol m, In m (sel_of ms sol) -> In m ms.
+Proof.
+  intros ms sol m H. unfold sel_of in H. apply in_flat_map in H as [id [_ H]].
+  destruct (find_match ms id) as [x|] eqn:Hf; [|contradiction].
+  destruct H as [H|[]]. subst. apply find_match_spec in Hf. tauto.
+Qed.
+
+Lemma apply_loop_spec : forall fuel v p cs r it ev ms ex fmt sel,
+  apply_loop fuel v p cs r it ev ms ex = HOk fmt sel ->
+  Forall (good v p cs) ms ->
+  exists sol, sol <> [] /\ satisfied r sol = true /\ map m_desc sel = sol /\ Forall (good v p cs) sel.
+Proof.
+  induction fuel as [|f IH]; intros v p cs r it ev ms ex fmt sel H G; simpl in H; [discriminate|].
+  destruct (next r it ex) as [[it' sol]|] eqn:Hn; [|discriminate].
+  destruct sol as [|s0 srest] eqn:Hsol; [discriminate|].
+  destruct (eval_sol v p cs (s0 :: srest) ev ms) as [[[solved ev'] ms'] ex'] eqn:He.
+  destruct (eval_sol_inv _ _ _ _ _ _ _ _ _ _ He G) as [A [B C]].
+  destruct solved.
+  - inversion H; subst. exists (s0 :: srest). split; [discriminate|].
+    destruct (next_sound _ _ _ _ _ Hn) as [S1 _]; [discriminate|]. split; [exact S1|].
+    split.
+    + apply (sel_of_ids ms' (s0 :: srest)). apply C. reflexivity.
+    + apply Forall_forall. intros m Hm. rewrite Forall_forall in A. apply A.
+      eapply (sel_of_in ms' (s0 :: srest)). exact Hm.
+  - eapply IH; eauto.
+Qed.
+
+Lemma holder_select_spec : forall v p creds fmt sel,
+  holder_select v p creds = HOk fmt sel ->
+  exists r sol, make_req p = Some r /\ sol <> [] /\ satisfied r sol = true /\ map m_desc sel = sol /\
+                Forall (good v p (index_creds 0 creds)) sel.
+Proof.
+  intros v p creds fmt sel H. unfold holder_select in H.
+  destruct (make_req p) as [r|] eqn:Hr; [|discriminate].
+  apply apply_loop_spec in H; [|constructor].
+  destruct H as [sol H]. exists r, sol. tauto.
 Qed.
